@@ -65,8 +65,23 @@ func vfE1FromIF(pq inFlightPqueue) []vfE1Ent {
 	return out
 }
 
+// vfE1Cap: capacity of the rebuilt heap, a function of its length so that a line replays the same
+// way: exactly full (Push must grow), a little room, or mostly empty and large (Pop shrinks).
+func vfE1Cap(n int) int {
+	switch n % 3 {
+	case 0:
+		if n == 0 {
+			return 1 // (a heap created with capacity 0 panics on its first Push: c*2 = 0; nsqd always asks for >= 1)
+		}
+		return n
+	case 1:
+		return n + 4
+	}
+	return 64 + n
+}
+
 func vfE1ToIF(es []vfE1Ent) inFlightPqueue {
-	pq := newInFlightPqueue(len(es) + 4)
+	pq := newInFlightPqueue(vfE1Cap(len(es)))
 	for _, e := range es {
 		pq = append(pq, &Message{ID: vfE1MsgID(e.id), pri: e.pri, index: e.index})
 	}
@@ -82,7 +97,7 @@ func vfE1FromPQ(pq pqueue.PriorityQueue) []vfE1Ent {
 }
 
 func vfE1ToPQ(es []vfE1Ent) pqueue.PriorityQueue {
-	pq := pqueue.New(len(es) + 4)
+	pq := pqueue.New(vfE1Cap(len(es)))
 	for _, e := range es {
 		pq = append(pq, &pqueue.Item{Value: e.id, Priority: e.pri, Index: e.index})
 	}
@@ -869,6 +884,36 @@ func TestVerifWallClock(t *testing.T) {
 			cmd.WriteTo(pc)
 			_, at := recv()
 			report(fmt.Sprintf("defer %v", d), at, t0.Add(d), t0.Add(d))
+		case "dpub2": // the same deferred publish reaches a second channel: not early there either
+			topic.GetChannel("ch2")
+			c2, err := mustConnectNSQD(tcpAddr)
+			if err != nil {
+				panic(err)
+			}
+			defer c2.Close()
+			c2.SetDeadline(time.Now().Add(20 * time.Second))
+			identify(nil, c2, nil, frameTypeResponse)
+			sub(nil, c2, topicName, "ch2")
+			nsq.Ready(1).WriteTo(c2)
+			pc, err := mustConnectNSQD(tcpAddr)
+			if err != nil {
+				panic(err)
+			}
+			defer pc.Close()
+			identify(nil, pc, nil, frameTypeResponse)
+			t0 := time.Now()
+			nsq.DeferredPublish(topicName, d, body).WriteTo(pc)
+			_, at := recv()
+			report(fmt.Sprintf("defer %v (channel 1 of 2)", d), at, t0.Add(d), t0.Add(d))
+			resp, err := nsq.ReadResponse(c2)
+			if err != nil {
+				panic(err)
+			}
+			at2 := time.Now()
+			if ft, _, _ := nsq.UnpackResponse(resp); ft != frameTypeMessage {
+				panic("dpub2: unexpected frame on the second channel")
+			}
+			report(fmt.Sprintf("defer %v (channel 2 of 2)", d), at2, t0.Add(d), t0.Add(d))
 		case "req":
 			topic.PutMessage(NewMessage(topic.GenerateID(), body))
 			m, _ := recv()
@@ -917,7 +962,7 @@ func TestVerifWallClock(t *testing.T) {
 	idx := 0
 	for k := 0; k < rounds; k++ {
 		for _, d := range []time.Duration{time.Duration(1+r.Intn(40)) * time.Millisecond, time.Duration(90+r.Intn(30)) * time.Millisecond, time.Duration(200+r.Intn(400)) * time.Millisecond} {
-			for _, kind := range []string{"dpub", "req"} {
+			for _, kind := range []string{"dpub", "req", "dpub2"} {
 				idx++
 				wg.Add(1)
 				go scenario(kind, idx, d)
